@@ -345,6 +345,10 @@ func (w *Witness) Update(pk *gabikeys.PublicKey, update *Update) error {
 
 // Verify the witness against its SignedAccumulator.
 func (w *Witness) Verify(pk *gabikeys.PublicKey) error {
+	// A witness that arrived over the wire may lack any of its parts
+	if w.SignedAccumulator == nil || w.U == nil || w.E == nil {
+		return errors.New("incomplete witness")
+	}
 	_, err := w.SignedAccumulator.UnmarshalVerify(pk)
 	if err != nil {
 		return err
